@@ -31,7 +31,8 @@ RNDS = ["n", "f", "c", "u", "d"]
 
 # ------------------------------------------------------------------------------------------------
 # function table: name -> (class, site, {kind: callable(ctx)})
-#   class "elem": any precision; "med": precision >= 10 only; "risk": functions with state outside libmp
+#   class "elem": any precision; "med": precision >= 10 only; "risk": functions with state outside libmp;
+#   "slow": like "risk" but seconds per call above ~100 bits — only in the systematic programs (precision <= 64 there)
 # ------------------------------------------------------------------------------------------------
 
 def _hilbert_det(c):
@@ -96,6 +97,27 @@ FUNS = {
     "primepi2": ("risk", "functions.zeta.primepi2", {"mp": lambda c: c.primepi2(3000)}),
     "siegelz": ("risk", "functions.zeta.siegelz", {"mp": lambda c: c.siegelz(c.mpf(1000)), "fp": lambda c: c.siegelz(1000.0)}),
     "zetahigh": ("risk", "functions.rszeta", {"mp": lambda c: c.zeta(c.mpc(0.5, 5000)), "fp": lambda c: c.zeta(0.5 + 5000j)}),
+    # --- every function of the package that dereferences a cross-link ctx._mp / ctx._fp / ctx._iv (enumerated from the
+    #     source by link_sites(); that these arguments REACH the link lines from a context of another kind is measured on
+    #     every run by the probe, see cross_link_coverage).  The Riemann-Siegel code is entered for |t| > 500*prec only
+    #     (26500 for fp), which "siegelz" / "zetahigh" above never reach from fp.
+    "siegelzRS": ("risk", "functions.rszeta.coef", {"mp": lambda c: c.siegelz(c.mpf(10) ** 6), "fp": lambda c: c.siegelz(1.0e6)}),
+    "zetaRS":  ("risk", "functions.rszeta.coef", {"mp": lambda c: c.zeta(c.mpc(0.5, 10 ** 6)), "fp": lambda c: c.zeta(0.5 + 1.0e6j)}),
+    "zetaRSd": ("risk", "functions.rszeta.coef", {"mp": lambda c: c.zeta(c.mpc(0.5, 3 * 10 ** 6), derivative=1), "fp": lambda c: c.zeta(0.5 + 3.0e6j, derivative=1)}),
+    "nzerosRS": ("risk", "functions.zetazeros.nzeros", {"mp": lambda c: c.nzeros(10 ** 6), "fp": lambda c: c.nzeros(10 ** 6)}),
+    "zetazeroRS": ("slow", "functions.zetazeros.zetazero", {"mp": lambda c: c.zetazero(10 ** 6), "fp": lambda c: c.zetazero(10 ** 6)}),
+    "zetazeroRosser": ("slow", "functions.zetazeros.zetazero", {"mp": lambda c: c.zetazero(13999527)}),
+    "zetazeroTuring": ("slow", "functions.zetazeros.zetazero", {"mp": lambda c: c.zetazero(400000001)}),
+    "primepi2s": ("risk", "functions.zeta.primepi2", {"mp": lambda c: c.primepi2(1), "fp": lambda c: c.primepi2(1)}),
+    "primepi2m": ("risk", "functions.zeta.primepi2", {"mp": lambda c: c.primepi2(100), "fp": lambda c: c.primepi2(100)}),
+    # --- functions that fill PER-CONTEXT caches (ctx._misc_const_cache through c_memo, ctx.zetazero_memoized,
+    #     ctx._rs_cache, ...): which table entries write which per-context state is measured by the probe
+    "airyai":  ("med", "functions.bessel.airyai", {"mp": lambda c: c.airyai(1), "fp": lambda c: c.airyai(1.0)}),
+    "airybi":  ("med", "functions.bessel.airybi", {"mp": lambda c: c.airybi(1), "fp": lambda c: c.airybi(1.0)}),
+    "airyaiint": ("med", "functions.bessel.airyai", {"mp": lambda c: c.airyai(c.mpf("0.5"), derivative=-1)}),
+    "airybiint": ("med", "functions.bessel.airybi", {"mp": lambda c: c.airybi(c.mpf("0.5"), derivative=-1)}),
+    "airyaid": ("med", "functions.bessel.airyai", {"mp": lambda c: c.airyai(c.mpf("0.25"), derivative=1)}),
+    "secondzeta": ("slow", "functions.zeta.secondzeta", {"mp": lambda c: c.secondzeta(2)}),
 }
 
 KIND_ID = {"mp": 0, "iv": 1, "fp": 2}
@@ -237,9 +259,22 @@ def worker_single(evals):
     import mpmath
     ctxs = [mpmath.mp, mpmath.iv, mpmath.fp]
     out = []
+    mp_, iv_ = ctxs[0], ctxs[1]
     for kind, prec, dps, rnd, trap, pretty, fname in evals:
         i = KIND_ID[kind]
         c = ctxs[i]
+        # the contexts of the OTHER kinds are at their import-time settings for every reference evaluation (the one
+        # global mp stands for all mp-kind contexts of the program; it must not lend their settings to an fp or iv evaluation)
+        if kind != "mp":
+            mp_._prec = mp_._prec_rounding[0] = 53
+            mp_._dps = 15
+            mp_._prec_rounding[1] = "n"
+            mp_.trap_complex = False
+            mp_.pretty = False
+        if kind != "iv":
+            iv_._prec[0] = 53
+            iv_._dps = 15
+            iv_.pretty = False
         if kind == "mp":
             c._prec = c._prec_rounding[0] = int(prec)
             c._dps = int(dps)
@@ -255,6 +290,128 @@ def worker_single(evals):
 
 def _ident(o):
     return id(o)
+
+
+def _private_state(c):
+    """fingerprints of the mutable state owned by ONE context object: containers in its __dict__, containers of its
+    helper objects (quadrature rules) one level down, containers captured by function-valued attributes (memoize);
+    the cross-links are not followed"""
+    import types, hashlib
+
+    def fpr(v):
+        try:
+            r = repr(v)
+        except Exception:  # noqa
+            r = "len=%d" % len(v)
+        return hashlib.md5(r.encode()).hexdigest()
+    out = {}
+    for k, v in list(c.__dict__.items()):
+        if k in ("_mp", "_fp", "_iv"):
+            continue
+        if isinstance(v, (dict, list, set)):
+            out[k] = fpr(v)
+        elif isinstance(v, types.FunctionType):
+            for n, cell in enumerate(v.__closure__ or ()):
+                try:
+                    cv = cell.cell_contents
+                except ValueError:
+                    continue
+                if isinstance(cv, (dict, list, set)):
+                    out["%s.<closure %d>" % (k, n)] = fpr(cv)
+        elif hasattr(v, "__dict__") and not isinstance(v, (type, types.ModuleType, types.MethodType, types.BuiltinFunctionType)):
+            for a, b in list(vars(v).items()):
+                if isinstance(b, (dict, list, set)):
+                    out["%s.%s" % (k, a)] = fpr(b)
+    return out
+
+
+def worker_probe(fname, kind, prec, sites):
+    """ONE evaluation in a pristine process: which cross-link lines (sites: [relfile, function, line, link]) it
+    executes, and which state private to the evaluating context it writes"""
+    import mpmath
+    ctxs = [mpmath.mp, mpmath.iv, mpmath.fp]
+    i = KIND_ID[kind]
+    c = ctxs[i]
+    if kind != "fp":
+        c.prec = prec
+    root = os.path.realpath(os.path.join(os.path.dirname(mpmath.__file__)))
+    want = {}
+    for rel, fn, line, link in sites:
+        want.setdefault((os.path.join(root, rel), fn), set()).add(line)
+    hit = set()
+    unresolved = []
+    before = _private_state(c)
+    mon = getattr(sys, "monitoring", None)
+    if mon is not None:
+        # line events on the code objects of the site functions only (no cost anywhere else)
+        # (found through the module namespaces: walking gc.get_objects() in a forked child copies the whole heap)
+        import types, importlib
+        codes = {}
+
+        def add(co, fnm):
+            if (fnm, co.co_name) in want:
+                codes[co] = (fnm, co.co_name)
+            for k in co.co_consts:
+                if isinstance(k, types.CodeType):
+                    add(k, fnm)
+        for fnm in sorted({f for f, _ in want}):
+            rel = os.path.relpath(fnm, root)
+            mod = importlib.import_module("mpmath." + rel[:-3].replace(os.sep, "."))
+            for o in list(vars(mod).values()):
+                fs = [o] if isinstance(o, types.FunctionType) else \
+                     [m for m in vars(o).values() if isinstance(m, types.FunctionType)] if isinstance(o, type) else []
+                for fo in fs:
+                    if os.path.realpath(fo.__code__.co_filename) == fnm:
+                        add(fo.__code__, fnm)
+        unresolved = sorted("%s:%s" % (os.path.relpath(f, root), n) for f, n in want if (f, n) not in codes.values())
+        tool = 3
+        mon.use_tool_id(tool, "c38probe")
+
+        def on_line(code, line):
+            key = codes.get(code)
+            if key is not None and line in want[key]:
+                hit.add((os.path.relpath(key[0], root), line))
+            return mon.DISABLE
+        mon.register_callback(tool, mon.events.LINE, on_line)
+        for co in codes:
+            mon.set_local_events(tool, co, mon.events.LINE)
+        t0 = time.time()
+        try:
+            out = _eval(ctxs, i, fname)
+        finally:
+            for co in codes:
+                mon.set_local_events(tool, co, 0)
+            mon.free_tool_id(tool)
+    else:
+        rp = {}
+
+        def tr(frame, ev, arg):
+            if ev != "call":
+                return None
+            co = frame.f_code
+            fnm = rp.get(co.co_filename)
+            if fnm is None:
+                fnm = rp[co.co_filename] = os.path.realpath(co.co_filename)
+            lines = want.get((fnm, co.co_name))
+            if lines is None:
+                return None
+
+            def loc(frame, ev, arg):
+                if ev == "line" and frame.f_lineno in lines:
+                    hit.add((os.path.relpath(fnm, root), frame.f_lineno))
+                return loc
+            return loc
+        t0 = time.time()
+        sys.settrace(tr)
+        try:
+            out = _eval(ctxs, i, fname)
+        finally:
+            sys.settrace(None)
+    secs = time.time() - t0
+    after = _private_state(c)
+    touched = sorted(k for k in after if before.get(k) != after[k])
+    return {"out": out[0], "lines": sorted([a, b] for a, b in hit), "touched": touched, "secs": round(secs, 3),
+            "unresolved": unresolved}
 
 
 def worker_structure():
@@ -337,6 +494,28 @@ def worker_structure():
     return res
 
 
+def worker_clone_private(fnames, prec):
+    """T1 tie for MpModel/WorldPC.lean (`clone` constructs a context with EMPTY private caches): the parent evaluates
+    the given entries (those measured to write private state), is cloned; the clone's private state is compared with
+    that of a newly constructed context, and a clone of that clone likewise"""
+    import mpmath
+    mp = mpmath.mp
+    mp.prec = prec
+    ctxs = [mp, mpmath.iv, mpmath.fp]
+    outs = [_eval(ctxs, 0, f)[0] for f in fnames]
+    before = _private_state(mp)
+    c = mp.clone()
+    c2 = c.clone()
+    new = type(mp)()
+    new.prec = prec
+    sn, sc, sc2, after = _private_state(new), _private_state(c), _private_state(c2), _private_state(mp)
+    return {"outs": outs,
+            "clone_differs": sorted(k for k in set(sn) | set(sc) if sn.get(k) != sc.get(k)),
+            "clone_of_clone_differs": sorted(k for k in set(sn) | set(sc2) if sn.get(k) != sc2.get(k)),
+            "parent_written_by_clone": sorted(k for k in set(before) | set(after) if before.get(k) != after.get(k)),
+            "parent_nonempty": sorted(k for k in before if before[k] != sn.get(k))}
+
+
 def _answer(req):
     if req["mode"] == "multi":
         return worker_multi(req["stmts"])
@@ -344,6 +523,10 @@ def _answer(req):
         return worker_single(req["evals"])
     if req["mode"] == "structure":
         return worker_structure()
+    if req["mode"] == "clone_private":
+        return worker_clone_private(req["fnames"], req["prec"])
+    if req["mode"] == "probe":     # the kinds own disjoint private state, so one pristine process serves all kinds of an entry
+        return {k: worker_probe(req["fname"], k, req["prec"], req["sites"]) for k in req["kinds"]}
     return None
 
 
@@ -435,6 +618,70 @@ def call_workers(reqs, par=4):
 
 def call_worker(req):
     return call_workers([req], 1)[0]
+
+
+LINK_ATTRS = ("_mp", "_fp", "_iv")
+PROBE_PREC = 60          # precision of the probing evaluations (mp and iv); not the default on purpose
+
+
+def link_sites(repo=None):
+    """STATIC: every place of the package (tests excluded) where a function loads an attribute named _mp / _fp / _iv,
+    i.e. reaches from one context object for another one: [relative file, innermost function, line, link]"""
+    import ast
+    root = os.path.join(repo or REPO, "mpmath")
+    sites = []
+    for dp, dn, fns in sorted(os.walk(root)):
+        if os.sep + "tests" in dp:
+            continue
+        for f in sorted(fns):
+            if not f.endswith(".py"):
+                continue
+            path = os.path.join(dp, f)
+            try:
+                tree = ast.parse(open(path, encoding="utf-8").read())
+            except SyntaxError:
+                continue
+            funcs = [n for n in ast.walk(tree) if isinstance(n, (ast.FunctionDef, ast.AsyncFunctionDef))]
+            for n in ast.walk(tree):
+                if isinstance(n, ast.Attribute) and n.attr in LINK_ATTRS and isinstance(n.ctx, ast.Load):
+                    inside = [fn for fn in funcs if fn.lineno <= n.lineno <= fn.end_lineno]
+                    if not inside:
+                        continue          # module level: the wiring in mpmath/__init__.py
+                    fn = max(inside, key=lambda x: x.lineno)
+                    sites.append([os.path.relpath(path, root), fn.name, n.lineno, n.attr])
+    out = []
+    for x in sorted(sites):
+        if x not in out:
+            out.append(x)
+    return out
+
+
+def probe(par=8):
+    """MEASURED, per table entry and context kind, in pristine processes: the cross-link lines executed, the private
+    state of the evaluating context written, the wall time.  -> (sites, {fname: {kind: answer-or-None}})"""
+    sites = link_sites()
+    keys = sorted(FUNS, key=lambda f: (FUNS[f][0] != "slow", f))       # the slow ones first (better packing)
+    ans = call_workers([{"mode": "probe", "fname": f, "kinds": sorted(FUNS[f][2]), "prec": PROBE_PREC, "sites": sites}
+                        for f in keys], par)
+    table = {}
+    for f, a in zip(keys, ans):
+        table[f] = a if a is not None else {k: None for k in FUNS[f][2]}
+    return sites, table
+
+
+def cross_link_coverage(sites, table):
+    """for every static link site: the table entries that execute that line FROM A CONTEXT OF ANOTHER KIND than the
+    link's target (ctx._mp reached from fp or iv, ctx._fp from mp or iv, ctx._iv from mp or fp)"""
+    cov = {}
+    for rel, fn, line, link in sites:
+        key = "%s:%s:%d:%s" % (rel, fn, line, link)
+        by = []
+        for f in sorted(table):
+            for k, a in sorted(table[f].items()):
+                if a and k != link[1:] and [rel, line] in a["lines"]:
+                    by.append("%s.%s" % (k, f))
+        cov[key] = by
+    return cov
 
 
 def model_tokens(stmts):
@@ -535,6 +782,104 @@ class ProgGen:
             self.note("stmt", s.split(":")[0])
             stmts.append(s)
         return stmts
+
+
+class SysGen(ProgGen):
+    """SYSTEMATIC programs, one family per measured interaction class (parameters from the seeded PRNG):
+
+    link     for every table entry that executes a cross-link line, and every kind of context that can evaluate it
+             (fp, iv, mp itself, a clone): ALL other contexts are first given distinct non-default settings, then the
+             entry is evaluated, then every context computes 1/3, then the entry is evaluated from another kind and
+             (or the first again: cache hit).  The settings of every context are compared after every statement.
+    history  for every table entry that writes state private to the evaluating context: the PARENT evaluates it at
+             precision P1, is cloned, drops to P2 < P1; the clone (still at P1) evaluates, the parent evaluates, the clone
+             goes to P3 <= P1 and evaluates again.  Second shape: the same with a clone as parent (clone of a clone)."""
+
+    EVAL_ID = {"mp": 0, "iv": 1, "fp": 2, "clone": 3}
+
+    def _precs(self, n, lo, hi):
+        pool = [p for p in range(lo, hi + 1) if p != 53]
+        return self.r.sample(pool, n)
+
+    def link_program(self, f, e, others, slow):
+        r = self.r
+        hi = 64 if slow else 160
+        pa, pb, pc = self._precs(3, 20, hi)
+        sets = []
+        for i, p in ((0, pa), (1, pb), (3, pc)):
+            if r.random() < 0.25:
+                sets.append("sd:%d:%d" % (i, max(6, int(p * 0.30103) - 1 + r.randint(0, 1))))
+            else:
+                sets.append("sp:%d:%d" % (i, p))
+        r.shuffle(sets)
+        stmts = ["cl:0"] + sets
+        if not slow and r.random() < 0.25:
+            stmts.append("sr:%d:%s" % (r.choice([0, 3]), r.choice(RNDS[1:])))
+        if r.random() < 0.3:
+            stmts.append("sy:%d:1" % r.choice([0, 1, 2, 3]))
+        if r.random() < 0.2:
+            stmts.append("st:%d:1" % r.choice([0, 3]))
+        ie = self.EVAL_ID[e]
+        stmts.append("ev:%d:%s" % (ie, f))
+        stmts += ["ev:0:div13", "ev:3:div13", "ev:1:div13", "ev:2:div13"]
+        if not slow:            # the same entry from another kind (its own private caches are still empty), or again (cache hit)
+            stmts.append("ev:%d:%s" % (self.EVAL_ID[r.choice(others)] if others and r.random() < 0.7 else ie, f))
+        self.note("program_class", "link")
+        self.note("link_eval", "%s.%s" % (e, f))
+        return stmts
+
+    def link_programs(self, table, sites):
+        """one program per (entry that executes a cross-link line, kind of evaluating context).  The global mp itself is
+        an evaluator only if the entry reaches a link to ANOTHER kind from it (ctx._fp, ctx._iv; mp reaching itself through
+        ctx._mp is the C11 matter) and the entry is not slow (seconds per call: evaluated once per program); a clone runs
+        the same code and has the global mp, fp and iv as different contexts, so it always is one"""
+        link_of = {(rel, line): link for rel, fn, line, link in sites}
+        progs = []
+        for f in sorted(table):
+            slow = FUNS[f][0] == "slow"
+            who = []
+            for k in ("fp", "iv", "mp"):
+                a = table[f].get(k)
+                if a and a["lines"]:
+                    foreign = any(link_of.get((rel, line), "_?")[1:] != k for rel, line in a["lines"])
+                    who += [k] if k != "mp" else (["clone"] if (slow or not foreign) else ["clone", "mp"])
+            for e in who:
+                progs.append(self.link_program(f, e, [x for x in who if x != e], slow))
+        return progs
+
+    def history_program(self, f, shape, slow):
+        r = self.r
+        hi = 64 if slow else 220
+        p1 = r.randint(max(30, hi // 3), hi)
+        p2 = r.choice([p for p in (15, 24, 53) if p < p1] + [r.randint(10, p1 - 1), r.randint(10, p1 - 1), max(10, p1 - r.randint(1, 8))])
+        p3 = r.randint(10, p1)
+        if shape == 0:
+            stmts = ["sp:0:%d" % p1, "ev:0:" + f, "cl:0", "sp:0:%d" % p2, "ev:3:" + f, "ev:0:" + f, "sp:3:%d" % p3, "ev:3:" + f]
+        else:
+            stmts = ["cl:0", "sp:3:%d" % p1, "ev:3:" + f, "cl:3", "sp:3:%d" % p2, "ev:4:" + f, "ev:3:" + f, "sp:4:%d" % p3,
+                     "ev:4:" + f, "ev:0:" + f]
+        self.note("program_class", "history")
+        self.note("history_eval", f)
+        return stmts
+
+    def history_programs(self, table):
+        """first shape for every entry that writes private state of an mp context (second shape for a seeded third of them,
+        all of them in the thorough tier's repetitions); a slow entry only if it writes a state
+        item that no other entry writes (every written item is exercised, every cheap writer is)"""
+        writers = {f: set(a["touched"]) for f in sorted(table) for a in [table[f].get("mp")] if a and a["touched"]}
+        cheap = {f for f in writers if FUNS[f][0] != "slow"}
+        covered = set().union(*[writers[f] for f in cheap]) if cheap else set()
+        chosen = sorted(cheap)
+        for f in sorted(writers):
+            if f not in cheap and writers[f] - covered:
+                chosen.append(f)
+                covered |= writers[f]
+        progs = []
+        for f in chosen:
+            for shape in (0, 1):
+                if shape == 0 or self.r.random() < 0.34:
+                    progs.append(self.history_program(f, shape, FUNS[f][0] == "slow"))
+        return progs
 
 
 def reference_evals(stmts, model_rec):
@@ -652,6 +997,13 @@ def minimize(stmts, pred, rounds=4):
     back to the first single removal).  Removing a `cl` would renumber later clone ids, so `cl` statements are
     kept, except trailing unused clones."""
     cur = list(stmts)
+    # first the cheapest big step: every evaluation but the last one removed (settings-only prefixes explain most leaks;
+    # a failure that needs the cache history of earlier evaluations keeps them and goes through the rounds below)
+    cand = [s for s in cur[:-1] if not s.startswith("ev:")] + cur[-1:]
+    if len(cand) < len(cur):
+        r = run_one(cand)
+        if r is not None and pred(cand, r):
+            cur = cand
     for _ in range(rounds):
         ks = [k for k, s in enumerate(cur) if not s.startswith("cl:")]
         cands = [cur[:k] + cur[k + 1:] for k in ks]
